@@ -21,8 +21,10 @@ TIERS = {  # mode: (programs, steps) per tier
 }
 
 
-def kv_main(ctx, mode, sig_fn=None, extra=None, need_comp=("mem", "l0", "nl0")):
+def kv_main(ctx, mode, sig_fn=None, extra=None, need_comp=("mem", "l0", "nl0"), pre=None):
     nprog, nsteps = TIERS[mode][ctx.tier]
+    if pre:
+        pre(ctx)
     if mode == "c02":
         from vlib import tlc_mc
         tlc_mc(ctx, "DbIter.tla", "DbIter_quick.cfg" if ctx.quick else "DbIter_thorough.cfg", timeout=1800,
